@@ -1,6 +1,7 @@
 import GeomV.C10.Lemmas
 import GeomV.C10.LemmasT
 import GeomV.C10.LemmasM
+import GeomV.C10.LemmasC
 /-!
 # C10 — property theorems
 
@@ -412,5 +413,94 @@ example :
 end Witness
 
 end Transformer
+
+/-! ### `CoreOK` discharged for the modelled constructors -/
+
+section Ctors
+variable {F R Err : Type} [FOps F] [POps F]
+
+/-- the transformer's `Core` whose `init` is the transcription of the eight Go constructors
+(`Ctors.lean`); the closures and the datum step stay parameters -/
+def ctorCore (inv fwd : Ctor × PF F R → F → F → Except Err (F × F))
+    (dt : Nat → Nat → F → F → F → Except Err (F × F × F)) (axisErr : Err) (errOf : CErr → Err) :
+    Core F (Ctor × PF F R) Err where
+  init q := ((q.1, (initP q.1 q.2).1), (initP q.1 q.2).2.map errOf)
+  inv := inv
+  fwd := fwd
+  dt := dt
+  axisErr := axisErr
+
+/-- **C10_init_idempotent**: for each of the eight constructors (and an unregistered name), for EVERY
+spatial reference and every floating-point semantics, running the constructor on an SR it has already
+run on writes nothing new and reports the same error. -/
+theorem C10_init_idempotent (c : Ctor) (p : PF F R) :
+    initP c (initP c p).1 = ((initP c p).1, (initP c p).2) := initP_idem c p
+
+/-- **C10_init_frame**: a constructor changes no field outside its write set, and no write set
+contains a field the closure reads outside the projection functions (Name, Axis, ToMeter,
+FromGreenwich, DatumCode, datum, DatumParams, NADGrids). -/
+theorem C10_init_frame (c : Ctor) (p : PF F R) :
+    (∀ fld : Fld, fld.goName ∉ writeSet c → (initP c p).1.get fld = p.get fld) ∧
+    (∀ s ∈ writeSet c, s ∉ frameFields) :=
+  ⟨fun fld h => initP_frame c p fld h, writeSet_frame c⟩
+
+/-- **C10_CoreOK_ctors**: the hypothesis of `C10_pure` is a theorem for the modelled constructors. -/
+theorem C10_CoreOK_ctors (inv fwd : Ctor × PF F R → F → F → Except Err (F × F))
+    (dt : Nat → Nat → F → F → F → Except Err (F × F × F)) (axisErr : Err) (errOf : CErr → Err) :
+    CoreOK (ctorCore inv fwd dt axisErr errOf) := by
+  intro q
+  obtain ⟨c, p⟩ := q
+  simp [ctorCore, initP_idem c p]
+
+/-- **C10_pure_ctors**: history independence with NO hypothesis on the constructors: for the eight
+transcribed constructors, any closures `inv`/`fwd` reading the initialised SR, any datum step, any heap,
+pool and history, every answer equals the freshly built transformer's. -/
+theorem C10_pure_ctors (inv fwd : Ctor × PF F R → F → F → Except Err (F × F))
+    (dt : Nat → Nat → F → F → F → Except Err (F × F × F)) (axisErr : Err) (errOf : CErr → Err)
+    (wgs : Nat) (h0 : Heap F (Ctor × PF F R)) (pool : Nat → Tr) (hist : List (Nat × F × F)) :
+    Spec.HistoryIndependent
+      (runHist (ctorCore inv fwd dt axisErr errOf) wgs { heap := h0, pool := pool } hist).2
+      (hist.map fun q => (step (ctorCore inv fwd dt axisErr errOf) wgs h0 (pool q.1) q.2.1 q.2.2).2.2) :=
+  C10_pure _ (C10_CoreOK_ctors inv fwd dt axisErr errOf) wgs h0 pool hist
+
+end Ctors
+
+/-- What fix 98fda46 repaired: the snapshot's `EqdC` (check before default) is NOT idempotent — with
+`+lat_1=0` and no `+lat_2` the first run succeeds and the second reports the parallels error.
+(`F = Option Int`, `none` = NaN.) -/
+instance : POps (Option Int) where
+  isNaN x := x.isNone
+  lt a b := match a, b with | some a, some b => a < b | _, _ => false
+  add a b := do let a ← a; let b ← b; pure (a + b)
+  sub a b := do let a ← a; let b ← b; pure (a - b)
+  mul a b := do let a ← a; let b ← b; pure (a * b)
+  div a b := do let a ← a; let b ← b; pure (a / b)
+  abs a := a.map fun a => if a < 0 then -a else a
+  sqrt a := a
+  pow2 a := a.map fun a => a * a
+  zero := some 0
+  one := some 1
+  epsln := some 1
+  six := some 6
+  c183 := some 183
+  cDeg2rad := some 1
+  c500000 := some 500000
+  c1e7 := some 10000000
+  c09996 := some 1
+  kA := some 6377397
+  kEs := some 1
+  kLat0 := some 1
+  kLong0 := some 1
+  k09999 := some 1
+
+def eqdcDegenerate : PF (Option Int) Unit :=
+  { lat0 := some 0, lat1 := some 0, lat2 := none, long0 := some 0, x0 := some 0, y0 := some 0, k0 := some 1,
+    a := some 2, b := some 2, es := some 0, e := some 0, zone := none, utmSouth := false, ro := () }
+
+theorem snapshot_eqdc_not_idempotent :
+    (initEqdCSnapshot eqdcDegenerate).2 = none ∧
+    (initEqdCSnapshot (initEqdCSnapshot eqdcDegenerate).1).2 = some .eqdcParallels ∧
+    (initEqdC eqdcDegenerate).2 = some .eqdcParallels ∧
+    (initEqdC (initEqdC eqdcDegenerate).1).2 = some .eqdcParallels := by decide
 
 end GeomV.C10
